@@ -80,6 +80,58 @@ func (g *gl) call(c *ast.CallExpr, bs *[]glBind) string {
 		a := g.expr(c.Args[0], bs)
 		v := g.expr(c.Args[1], bs)
 		return fmt.Sprintf("(%s ++ Go.be32 %s)", a, atom(v))
+	case "binary.bigEndian.AppendUint64":
+		a := g.expr(c.Args[0], bs)
+		v := g.expr(c.Args[1], bs)
+		return fmt.Sprintf("(%s ++ Go.be64 %s)", a, atom(v))
+	case "strings.Contains", "strings.ReplaceAll":
+		// a one-byte ASCII constant: containing / removing the string is containing / removing the byte
+		if tv := g.info().Types[c.Args[1]]; tv.Value != nil && tv.Value.Kind() == constant.String {
+			if pat := constant.StringVal(tv.Value); len(pat) == 1 && pat[0] < 0x80 {
+				if name == "strings.Contains" {
+					return fmt.Sprintf("(%s.contains (%d : UInt8))", atom(g.expr(c.Args[0], bs)), pat[0])
+				}
+				if rv := g.info().Types[c.Args[2]]; rv.Value != nil && rv.Value.Kind() == constant.String && constant.StringVal(rv.Value) == "" {
+					return fmt.Sprintf("(removeByte %s (%d : UInt8))", atom(g.expr(c.Args[0], bs)), pat[0])
+				}
+			}
+		}
+		g.bad(c.Pos(), "%s with a pattern that is not a one-byte ASCII constant (or a non-empty replacement)", name)
+		return "[]"
+	case "fmt.Sprintf":
+		// only %s verbs, every argument a string or []byte: the concatenation of the literal pieces and the arguments
+		if tv := g.info().Types[c.Args[0]]; tv.Value != nil && tv.Value.Kind() == constant.String {
+			pieces := strings.Split(constant.StringVal(tv.Value), "%s")
+			ok := len(pieces) == len(c.Args)
+			for _, pc := range pieces {
+				if strings.Contains(pc, "%") {
+					ok = false
+				}
+			}
+			for _, a := range c.Args[1:] {
+				if g.leanType(g.typeOf(a)) != "Bytes" {
+					ok = false
+				}
+			}
+			if ok {
+				var parts []string
+				for i, pc := range pieces {
+					if pc != "" {
+						lit, _ := g.constLit(constant.MakeString(pc), types.Typ[types.String])
+						parts = append(parts, lit)
+					}
+					if i < len(c.Args)-1 {
+						parts = append(parts, atom(g.expr(c.Args[i+1], bs)))
+					}
+				}
+				if len(parts) == 0 {
+					return "([] : Bytes)"
+				}
+				return "(" + strings.Join(parts, " ++ ") + ")"
+			}
+		}
+		g.bad(c.Pos(), "fmt.Sprintf with verbs other than %%s or arguments that are not strings")
+		return "[]"
 	case "bytes.ContainsRune":
 		a := g.expr(c.Args[0], bs)
 		if tv := g.info().Types[c.Args[1]]; tv.Value != nil {
@@ -200,7 +252,7 @@ func (g *gl) call(c *ast.CallExpr, bs *[]glBind) string {
 			}
 			args := []string{"fuel"}
 			if t.recv != nil {
-				args = append(args, atom(g.expr(recvExpr(c), bs)))
+				args = append(args, atom(g.expr(recvExpr(c), bs)+g.promotedPath(c)))
 			}
 			for _, a := range c.Args {
 				args = append(args, atom(g.expr(a, bs)))
@@ -349,6 +401,30 @@ func (g *gl) evalArgsOnly(c *ast.CallExpr, bs *[]glBind) {
 // glUpdate: a call statement that updates a variable or a field path: returns the path expression that is updated and
 // the Lean term of its new value (binds in bs); ok=false when the call is not of that kind
 func (g *gl) callUpdate(c *ast.CallExpr, bs *[]glBind) (target ast.Expr, newVal string, rest string, ok bool) {
+	if id, ok := ast.Unparen(c.Fun).(*ast.Ident); ok && id.Name == "copy" {
+		if _, ok := g.info().Uses[id].(*types.Builtin); ok && len(c.Args) == 2 && g.leanType(g.typeOf(c.Args[0])) == "Bytes" && g.leanType(g.typeOf(c.Args[1])) == "Bytes" {
+			dst := ast.Unparen(c.Args[0])
+			base := dst
+			lo, hi := "(0 : Int)", ""
+			if se, ok := dst.(*ast.SliceExpr); ok && !se.Slice3 {
+				base = se.X
+				if se.Low != nil {
+					lo = g.toInt(g.expr(se.Low, bs), g.typeOf(se.Low))
+				}
+				if se.High != nil {
+					hi = g.toInt(g.expr(se.High, bs), g.typeOf(se.High))
+				}
+			}
+			b := g.expr(base, bs)
+			if hi == "" {
+				hi = "(len " + b + ")"
+			}
+			src := g.expr(c.Args[1], bs)
+			n := g.fresh("t")
+			*bs = append(*bs, glBind{n, fmt.Sprintf("(copyAt %s %s %s %s)", b, lo, hi, src), false})
+			return base, n, "", true
+		}
+	}
 	name, fn := g.calleeName(c)
 	switch name {
 	case "bytes.Buffer.Write", "bytes.Buffer.WriteString":
@@ -387,6 +463,9 @@ func (g *gl) callUpdate(c *ast.CallExpr, bs *[]glBind) (target ast.Expr, newVal 
 		t := g.fns[fn]
 		if t != nil && g.translateFn(t) && t.recv != nil && t.recvPtr {
 			r := recvExpr(c)
+			if g.promotedPath(c) != "" {
+				g.bad(c.Pos(), "a method promoted from an embedded struct assigns to its receiver")
+			}
 			args := []string{"fuel", atom(g.expr(r, bs))}
 			for _, a := range c.Args {
 				args = append(args, atom(g.expr(a, bs)))
@@ -452,4 +531,27 @@ func (g *gl) insideLoop(pos token.Pos) bool {
 		return true
 	})
 	return in
+}
+
+// a method promoted from an embedded struct is called on that struct: ".Embedded" (or a longer path), "" otherwise
+func (g *gl) promotedPath(c *ast.CallExpr) string {
+	se, ok := ast.Unparen(c.Fun).(*ast.SelectorExpr)
+	if !ok {
+		return ""
+	}
+	sel, ok := g.info().Selections[se]
+	if !ok || sel.Kind() != types.MethodVal || len(sel.Index()) < 2 {
+		return ""
+	}
+	t := sel.Recv()
+	out := ""
+	for _, i := range sel.Index()[:len(sel.Index())-1] {
+		if p, ok := t.(*types.Pointer); ok {
+			t = p.Elem()
+		}
+		f := t.Underlying().(*types.Struct).Field(i)
+		out += "." + glField(f.Name())
+		t = f.Type()
+	}
+	return out
 }
